@@ -506,10 +506,10 @@ func gen(g *vh.Gen) {
 		g.Emit("text", vh.HS(s))
 	}
 	// one very long token per document: every token kind, sizes around 64 KiB and a few larger
-	for i := 0; i < g.N(12, 240); i++ {
+	for i := 0; i < g.N(12, 60); i++ {
 		g.Emit("html", vh.HS(genLong(g, i, longSize(g, i+i/10), 0)))
 	}
-	for i := 0; i < g.N(4, 60); i++ {
+	for i := 0; i < g.N(4, 16); i++ {
 		k := []int{0, 1, 5, 3, 7, 8, 2, 6, 4, 9}[i%10]
 		g.Emit("msg", vh.HS(validUTF8(genLong(g, k, longSize(g, i), 76))), vh.HS(validUTF8(genLong(g, 8, longSize(g, i+1), 76))))
 	}
